@@ -1,7 +1,7 @@
 (** C06 — Arrays are independent values with queue and dictionary behaviour.
     Statements only; proofs in Proofs/ArrayLaws.v. *)
 From Coq Require Import List ZArith NArith Bool.
-From RRSS Require Import Base.Outcome Base.Chars Base.F64 Base.F64Text Exec.Val Exec.Ops Front.Ast Exec.Env Proofs.ArrayLaws.
+From RRSS Require Import Base.Outcome Base.Chars Base.F64 Base.F64Text Exec.Val Exec.Ops Front.Ast Exec.Env Exec.Interp Proofs.ArrayLaws Proofs.InterpPure.
 Import ListNotations.
 Open Scope N_scope.
 
@@ -96,6 +96,24 @@ Theorem C06_store_other_variable_unchanged :
   find_var n (store_var m v ss) = find_var n ss.
 Proof. exact store_other_variable_unchanged. Qed.
 
+(** copies are independent: a statement that writes through one variable (rock, roll, a subscript write, any
+    mutation — with call-free operands) leaves every other variable exactly as it was, in particular the variable a
+    copy was taken from; and evaluating a call-free expression changes no variable at all *)
+Theorem C06_mutating_one_variable_leaves_the_others :
+  forall prof f s xs e xs' e' n,
+  frame_ok n s = true -> exec_stmt prof f s xs e = XOk xs' e' -> find_var n (scopes e') = find_var n (scopes e).
+Proof. exact assignment_frame. Qed.
+
+Example C06_frame_example :
+  let a := Simple (lit "a") in let b := Simple (lit "b") in
+  let r := mkRange (mkLoc 1 0) (mkLoc 1 1) in
+  frame_ok a (SPush (PIdent (IVar b) r) (Some (PushList (EPrimary (PLit (LNumber (f_of_Z 1)) r)) []))) = true /\
+  frame_ok a (SPop (PIdent (IVar b) r) None) = true /\
+  frame_ok a (SAssign (LSubscript (PIdent (IVar b) r) (PLit (LNumber (f_of_Z 0)) r)) (EPrimary (PIdent (IVar a) r)) [] None) = true /\
+  frame_ok a (SPush (PIdent (IVar a) r) None) = false.
+Proof. vm_compute. repeat split; reflexivity. Qed.
+
 Print Assumptions C06_write_extends_with_mysterious.
 Print Assumptions C06_rock_then_roll_fifo.
 Print Assumptions C06_store_other_variable_unchanged.
+Print Assumptions C06_mutating_one_variable_leaves_the_others.
